@@ -8,6 +8,7 @@ LEAN_MODULE = 'PGM.Properties.C16'
 LEAN_EXTRA = [
     'PGM.Properties.C16G',
     'PGM.Properties.C17G',
+    'PGM.Properties.C16F',    # fixed-point form of "generalised propagation is exact on junction trees" (local consistency at a fixed point; exactness for two maximal cliques; stationarity corollary)
 ]
 TRANSLATORS = (
     'py2fg',      # the non-convex path of factor_graph.py (__init__, init_messages, loopy_belief_propagation, clique_marginals, primal_feasibility) -> Generated/FactorGraphG.lean, proved equal to Model/FactorGraph.lean in C16G
